@@ -63,12 +63,14 @@ def cases(rng, tier):
         mod = htgen.pick_mod(rng, len(keys))
         if mod is not None and mod > np.iinfo(dt).max:
             mod = None          # a modulus that does not fit the key dtype is not a meaningful configuration
-        absent = htgen.absent_keys(rng, keys, dt, mod)
+        # queries normally come in the key dtype; for narrow key dtypes a third of the cases query with int64 arrays
+        qdt = "int64" if (dt in ("int32", "int16", "uint8") and rng.random() < 0.35) else dt
+        absent = htgen.absent_keys(rng, keys, dt, mod, wide=(qdt != dt))
         scalar = rng.random() < 0.3
         # a scalar-valued table without value_dtype stores values in the KEY dtype: keep them representable
         lo = 0 if np.dtype(dt).kind == "u" else -9
         vals = rng.randint(0, 5) if scalar else [rng.randint(lo, 99) for _ in keys]
-        out.append({"keys": keys, "kdtype": dt, "mod": mod, "vals": vals,
+        out.append({"keys": keys, "kdtype": dt, "qdtype": qdt, "mod": mod, "vals": vals,
                     "vdtype": rng.choice(["int64", "int64", "float64", "int32"]),
                     "ops": _history(rng, keys, absent, rng.randint(1, 8), lo)})
     return out
@@ -84,7 +86,7 @@ def nontrivial(p):
 
 def distribution(ps):
     return {"n_keys": gens.hist(len(p["keys"]) for p in ps), "mods": gens.hist(p["mod"] for p in ps),
-            "key_dtypes": gens.hist(p["kdtype"] for p in ps), "scalar_valued": sum(1 for p in ps if not isinstance(p["vals"], list)),
+            "key_dtypes": gens.hist(p["kdtype"] for p in ps), "int64_queries_on_narrow_keys": sum(1 for p in ps if p.get("qdtype", p["kdtype"]) != p["kdtype"]), "scalar_valued": sum(1 for p in ps if not isinstance(p["vals"], list)),
             "ops": gens.hist(o["t"] for p in ps for o in p["ops"]),
             "queries_with_absent_key": sum(1 for p in ps for o in p["ops"] if "ks" in o and any(k not in p["keys"] for k in o["ks"])),
             "all_keys_collide": sum(1 for p in ps if p["mod"] == 1 and len(p["keys"]) > 1)}
@@ -100,6 +102,7 @@ def run_impl(p):
     def g():
         kd = np.dtype(p["kdtype"])
         keys = np.array(p["keys"], dtype=kd)
+        qd = np.dtype(p.get("qdtype", p["kdtype"]))
         vals = p["vals"] if not isinstance(p["vals"], list) else np.array(p["vals"], dtype=p["vdtype"])
         kw = {} if p["mod"] is None else {"mod": p["mod"]}
         t = HashTable(keys, vals, **kw)
@@ -109,20 +112,20 @@ def run_impl(p):
             def one():
                 k = o["t"]
                 if k == "getvec":
-                    return [_num(x) for x in t[np.array(o["ks"], dtype=kd)]] if o["ks"] else [_num(x) for x in t[np.array([], dtype=kd)]]
+                    return [_num(x) for x in t[np.array(o["ks"], dtype=qd)]] if o["ks"] else [_num(x) for x in t[np.array([], dtype=kd)]]
                 if k == "get1":
                     r = t[int(o["k"])]
                     return [_num(x) for x in np.atleast_1d(r)]
                 if k == "setscalar":
-                    t[np.array(o["ks"], dtype=kd)] = o["x"]; return True
+                    t[np.array(o["ks"], dtype=qd)] = o["x"]; return True
                 if k == "seteach":
-                    t[np.array(o["ks"], dtype=kd)] = np.array(o["xs"], dtype=p["vdtype"]); return True
+                    t[np.array(o["ks"], dtype=qd)] = np.array(o["xs"], dtype=p["vdtype"]); return True
                 if k == "fill":
                     t.fill(o["x"]); return True
                 if k == "contains":
-                    return [bool(x) for x in t.contains(np.array(o["ks"], dtype=kd))]
+                    return [bool(x) for x in t.contains(np.array(o["ks"], dtype=qd))]
                 if k == "hs_contains":
-                    return [bool(x) for x in hs.contains(np.array(o["ks"], dtype=kd))]
+                    return [bool(x) for x in hs.contains(np.array(o["ks"], dtype=qd))]
                 if k == "items":
                     a = htgen.sort_pairs((kk, _num(v)) for kk, v in t.items())
                     b = htgen.sort_pairs((kk, _num(v)) for kk, v in t.to_dict().items())
